@@ -501,11 +501,39 @@ func rangeOne(c *Ctx, m proto.Message) {
 				if cnt != 1 {
 					c.PropFail("C32", fmt.Sprintf("position %s pushed %d times", want[k], cnt), tree)
 				}
+				// the property's own reading of Break / Terminate
+				qi := -1
+				for i, p := range run.pushed {
+					if p == want[k] {
+						qi = i
+					}
+				}
+				if qi >= 0 {
+					for _, p := range run.pushed[qi+1:] {
+						below := strings.HasPrefix(p, want[k]+"/")
+						switch {
+						case kind == "push" && below:
+							c.PropFail("C32", "a non-nil verdict from push must skip the children: "+p+" visited", tree, want[k]+"@"+kind+"="+v)
+						case v != "B" && !below:
+							c.PropFail("C32", "Terminate / error must stop the traversal: "+p+" visited afterwards", tree, want[k]+"@"+kind+"="+v)
+						}
+					}
+				}
 				if (v == "E") != (run.ret == rangeErr) {
 					c.PropFail("C32", "Range result: a callback error must be returned unchanged, Break/Terminate must not", tree, want[k]+"@"+kind+"="+v)
 				}
 			}
 		}
+	}
+	// precedence of verdicts (amendError): push and pop of the same position, and of a position and its parent
+	for i := 0; i < 4; i++ {
+		k := c.Intn(len(want))
+		s := map[string]string{want[k] + "@push": verdicts[c.Intn(3)], want[k] + "@pop": verdicts[c.Intn(3)]}
+		if j := strings.LastIndex(want[k], "/"); j > 0 && c.Bool() {
+			s = map[string]string{want[k] + "@" + kinds[c.Intn(2)]: verdicts[c.Intn(3)], want[k][:j] + "@pop": verdicts[c.Intn(3)]}
+		}
+		emit(s)
+		c.Stat("script_same_position")
 	}
 	// two-entry scripts: precedence of verdicts (amendError)
 	for i := 0; i < 3 && len(want) > 1; i++ {
